@@ -23,3 +23,4 @@ def run(chk, F):
     chk.guard("fallback-order", "Resolver::lookup", lambda: c07.family(chk, F, "Resolver::lookup", "loader::load::Resolver::lookup_exact", "loader::load::Resolver::lookup_with_prefix", "loader::load::Resolver::lookup", {}))
     chk.guard("load-is-a-function-of-text", "loader", lambda: L.determinism(chk, F))
     chk.guard("unique-names", "data", lambda: datafiles.unique_names(chk))
+    chk.guard("categories-declared-consistently", "data", lambda: datafiles.categories_declared_once(chk))
